@@ -261,7 +261,10 @@ receiveLoop:
 		otherRecordBuffer = leftRecordBuffer
 	}
 
-	if err := processRecordsUpTo(ctx, minWatermark, true); err != nil {
+	// Both record trees are still needed here: records released from the closed side's buffer
+	// have to be stored for the open side's later records to match them, and vice versa for as long as
+	// the closed side's buffer is non-empty.
+	if err := processRecordsUpTo(ctx, minWatermark, false); err != nil {
 		return err
 	}
 
